@@ -145,6 +145,13 @@ let dispatch (w : string list) : string =
       | Ok None -> "nofuel"
       | Err -> "err"
       | Panic -> "panic")
+  | [ "adss.coeffs"; t; m; r ] -> (
+      match adss_coeffs (n_of_string t) (bytes_of_hex m) (bytes_of_hex r) with
+      | Ok (Some [ pl ]) -> "ok " ^ String.concat "," (List.map hex_of_fp pl)
+      | Ok (Some _) -> "unexpected"
+      | Ok None -> "nofuel"
+      | Err -> "err"
+      | Panic -> "panic")
   | "adss.recover" :: shares -> (
       match adss_recover (List.map bytes_of_hex shares) with
       | Ok c ->
@@ -176,7 +183,8 @@ let dispatch (w : string list) : string =
       star_result_to_string { r with srWire = [] }
   | [ "star.derive"; m; e; t ] ->
       let (rnd, ((a, b), c)), k = star_derive (bytes_of_hex m) (bytes_of_hex e) (n_of_string t) in
-      Printf.sprintf "rnd=%s r0=%s r1=%s r2=%s key=%s" (hex_of_bytes rnd) (hex_of_bytes a) (hex_of_bytes b) (hex_of_bytes c) (hex_of_bytes k)
+      ignore a; ignore b;
+      Printf.sprintf "rnd=%s tag=%s key=%s" (hex_of_bytes rnd) (hex_of_bytes c) (hex_of_bytes k)
   | [ "star.decode"; b ] -> (
       match message_from_bytes (bytes_of_hex b) with
       | Ok s -> "ok " ^ hex_of_bytes (message_to_bytes s)
